@@ -141,12 +141,20 @@ def check_reverse(asm, acc, h):
         core.add_sample(acc, {'halfword': '%#06x' % h, 'canonical_text': text, 'assembled': o.out.hex() if o.ok else None})
 
 
-def text_forward(asm, acc, m, tup):
-    """the same tuple through a one-line program; registers/ints rendered as given"""
+def text_forward(asm, acc, m, tup, alias=False):
+    """the same tuple through a one-line program; registers/ints rendered as given (alias: register operands named through
+    register-alias constants, `RA8 = x8`, which sends the item through the alias-resolution pass)"""
     ops = [str(a) for a in tup]
+    pre = ''
+    if alias:
+        fmt = operands.FORMATS[m]
+        for k, (kind, a) in enumerate(zip(fmt, tup)):
+            if not isinstance(kind, tuple) and kind not in ('cupper', 'nzshamt') and isinstance(a, int) and 0 <= a <= 31:
+                pre += 'RA%d_%d = %s\n' % (a, k, ['x%d' % a, operands.ABI[a], str(a)][(a + k) % 3])
+                ops[k] = 'RA%d_%d' % (a, k)
     line = m + (' ' + ', '.join(ops) if ops else '')
     acc['n'] += 1
-    o = monitors.observe(asm, line, tap=False)
+    o = monitors.observe(asm, pre + line, tap=False)
     st, exp = operands.expected(m, tup)
     if not o.ok:
         if st == operands.ACCEPT:
@@ -217,8 +225,8 @@ def run_shard(sh, deadline):
         all_t = list(itertools.product(*doms_for(m, REGS_INT[1:-1])))
         if sh['tier'] == 'quick' and len(all_t) > 1500:
             all_t = rng.sample(all_t, 1500)
-        for tup in all_t:
-            text_forward(asm, acc, m, tup)
+        for k, tup in enumerate(all_t):
+            text_forward(asm, acc, m, tup, alias=(k % 3 == 2))
             if time.time() > deadline:
                 acc['truncated'] += 1
                 break
